@@ -206,6 +206,10 @@ def run_commuting(c, bath=None, sysm=None):
     label, dkmax, tcut_u, add_u = c["mem"]
     n = c.get("n", N_STEPS)
     h, o, rho0 = model(c["model"], c["rot"])
+    if c.get("layout") == "F":
+        rho0 = np.asfortranarray(rho0)
+    elif c.get("layout") == "T-view":
+        rho0 = np.ascontiguousarray(rho0.T).T
     k_eff = effective_k(dkmax, tcut_u)
     tau = _add_value(add_u, dt)
     exps, qerr = C.memory_exponents(sd, dt, n, k_eff, tau)
@@ -272,6 +276,7 @@ def convergence_case(args):
         for method in ("tempo", "pt"):
             c = {"fam": "commuting", "sd": sd, "dt": dt, "model": mid, "rot": rot, "mem": ["full", None, None, None],
                  "unique": False, "method": method, "epsrel": EPSREL, "n": 4}
+            c["layout"] = ("C", "F", "T-view")[i % 3]      # the same initial state in another memory layout
             r = run_commuting(c, bath=bath, sysm=sysm)
             bad = None
             if "exc" in r:
